@@ -291,3 +291,28 @@ def r09_12(ctx):
     ctx.check(bool(re), "Stage.set_value", detail="guesses that depend on the parameter (or on a parametric horizon) keep the numbers computed with the old value: the starting point differs from the same OCP written with the new value",
               expected="after the write-through: self._method.apply_initial(self._augmented, self.master._method, self._initial)", found="no re-application of the guess table", fi=f,
               sample={"write_through": [ast.unparse(c)[:80] for _, c in wt]})
+
+
+@rule("R09.13", min_instances=2, desc="declaring a list of symbols is declaring each of them: the list form of register_variable / register_parameter forwards every declaration argument (grid, order, scale, include_last, domain, meta)")
+def r09_13(ctx):
+    """register_parameter([p, q], grid='control') must create per-interval parameters like two single calls do; a
+    dropped argument silently falls back to its default (grid='' = one global value for the whole horizon)."""
+    P = ctx.prog
+    for fname in ("register_variable", "register_parameter"):
+        f = P.own_method("Stage", fname)
+        rec = [c for c in walk_no_nested(f.node) if is_call_to(c, fname, "self")]
+        ok = len(rec) == 1
+        missing = []
+        if ok:
+            c = rec[0]
+            passed = {k.arg: ast.unparse(k.value) for k in c.keywords if k.arg}
+            # positional arguments after the element count too
+            for pname, a in zip(f.params[2:], c.args[1:]):
+                passed[pname] = ast.unparse(a)
+            for pname in f.params[2:]:
+                if passed.get(pname) != pname:
+                    missing.append(pname)
+            ok = not missing
+        ctx.check(ok, "Stage.%s: the list form forwards every declaration argument" % fname, detail="arguments dropped for the members of a list (they silently get the defaults: e.g. grid='' instead of 'control')",
+                  expected="self.%s(e, %s)" % (fname, ", ".join("%s=%s" % (p_, p_) for p_ in f.params[2:])), found="not forwarded: %s" % ", ".join(missing) if rec else "no recursive call", fi=f,
+                  node=(rec[0] if rec else None), sample={"fn": fname, "missing": missing})
